@@ -30,7 +30,9 @@ def dumpMsg (m : Msg) : String :=
   let ws := (sortBytesBy (·.cid) m.wl).map fun e => s!"{hex e.cid}:{e.prio}:{e.ty}:{b2i e.cancel}:{b2i e.sdh}"
   let bs := (sortBytesBy (·.1) m.blocks).map fun b => s!"{hex b.1}:{hex b.2}"
   let ps := (sortBytesBy (·.1) m.pres).map fun p => s!"{hex p.1}:{p.2}"
-  s!"full={b2i m.full} pend={m.pending} wl=[{",".intercalate ws}] blk=[{",".intercalate bs}] pres=[{",".intercalate ps}]"
+  let hv (t : Int) := ",".intercalate ((sortBytesBy id (m.presOf t)).map hex)
+  s!"full={b2i m.full} pend={m.pending} wl=[{",".intercalate ws}] blk=[{",".intercalate bs}] pres=[{",".intercalate ps}] " ++
+  s!"empty={b2i m.empty} size={m.size} have=[{hv 0}] dont=[{hv 1}]"
 
 /-- the parameters observed for the pool of the case -/
 def poolHash (d : DSt) : Hash :=
@@ -150,20 +152,28 @@ def stepLine (d : DSt) (line : String) : DSt × String :=
     match ci.toNat? >>= (d.cids[·]?), parseInt ty with
     | some c, some ty => let m := d.m.addPresence c.1 ty; ({ d with m := m }, dumpMsg m)
     | _, _ => (d, "bad-op")
+  | ["clone"] => (d, dumpMsg d.m)
   | ["pending", n] =>
     match parseInt n with
     | some n => let m := { d.m with pending := n }; ({ d with m := m }, dumpMsg m)
     | none => (d, "bad-op")
   | ["v1"] => (d, netStep (poolHash d) (toProtoV1 (poolHash d) d.m) "v1")
   | ["v0"] => (d, netStep (poolHash d) (toProtoV0 d.m) "v0")
-  | "frompb" :: _ :: toks =>
-    if toks == ["ERR"] then (d, "reject")
-    else
-      let a := toks.foldl pbTok {}
-      if a.bad then (d, "bad-op")
-      else match fromProto (accHash a) a.p with
+  | "frompb" :: wire :: toks =>
+    -- the model parses the wire bytes itself (general protobuf reader); the tokens only carry what
+    -- go-cid / go-multihash answered for the byte strings protobuf-go found in them
+    let a : PBAcc := if toks == ["ERR"] then {} else toks.foldl pbTok {}
+    if a.bad then (d, "bad-op")
+    else match unhex wire with
+      | none => (d, "bad-op")
+      | some w =>
+        match Varint.decode w with
         | none => (d, "reject")
-        | some m => (d, dumpMsg m)
+        | some (l, payload) =>
+          if l != payload.length then (d, "reject")
+          else match fromWire (accHash a) payload with
+            | none => (d, "reject")
+            | some m => (d, dumpMsg m)
   | _ => (d, "bad-op")
 
 partial def loop (h : IO.FS.Stream) (out : IO.FS.Stream) (d : DSt) : IO Unit := do
